@@ -19,6 +19,8 @@ var c07Docs = []string{
 	"# Hello {lang=en title=\"x\"}\n\ntext &ouml; &amp; &copy; *em* [l](/u \"t\")\n",
 	"|a|b|\n|:-|-:|\n|c|d|\n\n- [ ] t\n\n~~s~~ http://a.b\n",
 	"text[^1] \"q\" -- ...\n\n[^1]: note\n\nt\n: d\n",
+	"a[^1] b[^2] c[^1] d[^3]\n\n[^1]: one\n[^2]: two\n\n[^3]: three\n",
+	"x[^n] y[^n] z[^n]\n\n[^n]: n[^m]\n\n[^m]: m\n\n# h[^m]\n",
 	"```go\ncode\n```\n\n> quote\n> more\n\n1. a\n2. b\n",
 	"[ref]: /u 'T'\n\n[ref] ![i][ref] <http://x.y> <b>raw</b> &#x41; &Dcaron;\n",
 	"# h {#i .c data-x=y width=3}\n\n![a](/s){width=10 height=20 title=t lang=en}\n\n## h2 {lang=fr dir=ltr}\n",
@@ -140,7 +142,8 @@ func runC07(c *Ctx) {
 		c.Rep.Extra["race_detector"] = "harness built with go build -race; GORACE=halt_on_error=0; every child's combined output scanned for DATA RACE"
 		return
 	}
-	cfgs := []Cfg{{Ext: "all", AutoID: true, Attr: true}, {Ext: "gfm", Attr: true, XHTML: true}, {Ext: "core"}, {Ext: "cjk", Unsafe: true}, {Ext: "footnote", AutoID: true}, {Ext: "typo", Attr: true}}
+	cfgs := []Cfg{{Ext: "all", AutoID: true, Attr: true}, {Ext: "gfm", Attr: true, XHTML: true}, {Ext: "core"}, {Ext: "cjk", Unsafe: true}, {Ext: "footnote", AutoID: true}, {Ext: "typo", Attr: true},
+		{Ext: "footnote", FnPrefix: "p-"}, {Ext: "gfm+footnote", FnPrefix: "article1-", FnPrefixFunc: true, XHTML: true}}
 	rounds := 2
 	if !c.Quick() {
 		rounds = 12
